@@ -27,6 +27,7 @@ DECIDED = [
     "R-C08-ALIGN (round 5): unmatched payload entries are handed to **kwargs or to *args, never to both and never dropped when one exists (decided per flag combination on the CFG region governed by the catch-all flags); R-C08-CALL: every path from the actor's return to success passes convert_outputs (no truthiness shortcut)",
     "R-C08-CALL (round 6): what is bound to the signature is the bucket's current content, fetched on every delivery (C07 marker rules reused)",
     "R-C08-AWAITED: in the files this property is anchored in, no bare statement calls a coroutine function (the operation would never run)",
+    "R-C08-CALL (sweep stage two): the four outcomes of PydanticConverter.convert_outputs by return annotation, decided under fixed guard atoms",
 ]
 NOT_DECIDED = ["equality of the arguments produced by the two converters (value level)", "decode(convert_outputs(v)) == v (value level)"]
 ASSUMPTIONS = ["pydantic fills declared defaults unvalidated unless validate_default is configured"]
@@ -41,6 +42,9 @@ def run(ctx: Ctx) -> None:
     from .shared import every_operation_awaited
 
     every_operation_awaited(ctx, "R-C08-AWAITED")  # in the files this property is anchored in, no asynchronous operation is created and dropped
+    from .shared import pydantic_output_table
+
+    pydantic_output_table(ctx, "R-C08-CALL")
     from .C07 import marker
 
     with ctx.as_rule("R-C08-CALL"):
